@@ -112,6 +112,28 @@ CLAIMED = {
         "technique": "lock live-range dataflow on MIR + dominance of publishes on HIR + type-level Send/Sync witnesses",
         "design_ref": "DESIGN.md §3 R-LOCK, §4 C17",
     },
+    "C18": {
+        "text": "Decides: (1) per scheme projection the collective decryption reaches the same RNSTool decoder, "
+                "representation change and correction-factor fix as the single-key Decryptor (sibling agreement); "
+                "(2) the refusal clause: the revelation protocol's finish passes a completeness assertion over the "
+                "received slots before every summation and every normal return, and no protocol reads a revelation "
+                "round's result except through finish()/finish_take(); (3) a certificate that message handlers store "
+                "into slot[sender_id] only, so the final state is independent of delivery order.",
+        "note": _TB + "Not decided: that collective keys equal the sum-key objects, plaintext preservation of the "
+                "protocols, identical keys across parties as values.",
+        "technique": "scheme-projected sibling callee-set agreement + must-pass-through dominance + effect-summary certificate",
+        "design_ref": "DESIGN.md §3 R-SCHEME/R-GUARD/R-COMMUTE, §4 C18",
+    },
+    "C20": {
+        "text": "Decides for the matmul/conv2d helper structs: no buffer handed to an encoder has the global "
+                "counterpart of a block dimension as a length factor (it would exceed the slot count for every shape "
+                "the helper splits); the _bfv/_ckks twins of every helper method have identical integer skeletons; "
+                "output re-encoding stores each tensor cell exactly where output decoding loads it from.",
+        "note": _TB + "Not decided: equality with the plaintext product/correlation, block-search optimality, the BOLT "
+                "helpers' modular slot arithmetic beyond twin agreement.",
+        "technique": "symbolic length factors + canonicalised index-expression agreement between sibling methods",
+        "design_ref": "DESIGN.md §3 R-ENCBOUND/R-INDEXPAIR, §4 C20",
+    },
 }
 
 _NYB = "rules designed (DESIGN.md §4) but not built yet in this tree; not claimed until the check exists"
@@ -120,8 +142,7 @@ NOT_APPLICABLE = {
     "C07": "every clause compares a reported integer with exact big-integer arithmetic on runtime phase/noise "
            "values; no necessary condition is visible in the shape of the code (DESIGN.md §5)",
     "C09": _NYB, "C10": _NYB, "C13": _NYB, "C14": _NYB,
-    "C16": _NYB, "C18": _NYB,
+    "C16": _NYB,
     "C19": "every clause is about where coefficients land as a function of runtime indices and counts; static "
            "shape rules do not bound them (DESIGN.md §5)",
-    "C20": _NYB,
 }
